@@ -538,6 +538,39 @@ targets, unless `set_reference_point` was given an `attrs` filter) is in its cha
 def needResolve {V : Type} (filter : Option (List String)) (targets : List (String × Tracked V)) : Bool :=
   targets.any fun t => (match filter with | none => true | some f => f.contains t.1) && t.2.changed
 
+/-! ### the coefficient memo of `HeadPump.get_head_curve_coefficients`
+
+`if self._curve_coeffs is None or curve.points != self._coeffs_curve_points: calculate_coefficients(curve)`, and
+`calculate_coefficients` stores `self._coeffs_curve_points = <key>`.  Python lists are OBJECTS: the model keeps a heap of point lists;
+the curve holds the id of its `_points`; the memo key is either a copy (a value) or a reference (an id, read through the heap when it is
+compared).  The `points` setter either rebinds `_points` to a new list or overwrites the old one in place. -/
+
+abbrev Pts := List (Rat × Rat)
+
+structure CurveHeap where
+  objs : List Pts
+  cur : Nat            -- id of the curve's `_points`
+  deriving Repr
+
+inductive MemoKey where
+  | ref (id : Nat)
+  | copy (v : Pts)
+  deriving Repr
+
+def CurveHeap.get (h : CurveHeap) (i : Nat) : Pts := h.objs.getD i []
+
+/-- `curve.points = new` -/
+def CurveHeap.setPoints (rebinds : Bool) (h : CurveHeap) (new : Pts) : CurveHeap :=
+  if rebinds then { objs := h.objs ++ [new], cur := h.objs.length } else { objs := h.objs.set h.cur new, cur := h.cur }
+
+/-- `self._coeffs_curve_points = …` -/
+def CurveHeap.storeKey (isCopy : Bool) (h : CurveHeap) : MemoKey := if isCopy then .copy (h.get h.cur) else .ref h.cur
+
+/-- `curve.points == self._coeffs_curve_points` (the memo is used) -/
+def CurveHeap.memoHit (h : CurveHeap) : MemoKey → Bool
+  | .copy v => decide (h.get h.cur = v)
+  | .ref i => decide (h.get h.cur = h.get i)
+
 /-! ### the DOCUMENTED constants (reference for the oracles; `Props/C02.lean` proves the generated constants equal them)
 
 Hazen-Williams in SI units: `h = 10.667·C^(−1.852)·d^(−4.871)·L·q^1.852` (WNTR / EPANET documentation), minor loss
